@@ -7,8 +7,9 @@ PROP = "C11"
 COUNT = {"quick": 600, "thorough": 4000, "search": 900}
 PARALLEL = True
 RULE = ("three case kinds. 'rw': a 3-D array of independent x,y,z sizes (quick: every shape <=5^3 once + random sizes 1..48 with "
-        "<=6000 voxels + 5 large maps >32768 voxels with nx<=32<nz such as 24x40x44 and one large converter input; thorough: every "
-        "shape <=12^3 + random 1..48 with <=30000 voxels + all 8 large maps + a few up to 48x47x46), dtype float32/float64/int16/int8, "
+        "<=6000 voxels + 5 large maps >32768 voxels with nx<=32<nz such as 24x40x44 and BOTH converters once on a >=40^3 map; thorough: every "
+        "shape <=12^3 + random 1..48 with <=30000 voxels (converter inputs too) + all 8 large maps + a few up to 48x47x46 + both converters x "
+        "invert on/off on (48,47,46)-class maps), dtype float32/float64/int16/int8, "
         "values that encode their own (i,j,k) index, seeded random values with float32 half-ulp ties / overflow / subnormals / +-0 / "
         "inf / NaN planted, or (whenever a float array meets an integer data_type) NON-integral values incl. ones a hair below a whole "
         "number (2.99999999, float32 neighbours of integers); memory layout C / Fortran / transposed view / strided view / the array "
@@ -17,16 +18,23 @@ RULE = ("three case kinds. 'rw': a 3-D array of independent x,y,z sizes (quick: 
         "aliases; a share of names with unsupported extensions; a share where the file is offered under a name of the OTHER container "
         "format and must be refused); in ~35% of the calls every keyword that has its documented default is OMITTED (write(a,p), "
         "read(p), em2mrc(p)), in another ~25% some are; the caller's array is compared before/after every call; a share reads twice, "
-        "editing the first result in between; the bytes are parsed by the harness's own MRC/EM parsers. 'conv': an EM (float32/"
+        "editing the first result in between; the BYTES of every written file go to the Lean driver, are decoded there by decodeMrc/decodeEm "
+        "(proved left inverses of the model's encoders) and compared with encode(write ..) of the model (named header fields + whole payload); "
+        "the harness's own Python parsers are only cross-checked against the Lean decoders. A share of arrays is in big-endian byte order "
+        "(what cryomap.read returns for a big-endian MRC file made by the harness's writer). 'conv': an EM (float32/"
         "float64/int16/int8) or MRC (float32/int16/int8) file made by the harness's own writers, converted by em2mrc/mrc2em with "
         "invert on/off, overwrite on/off, default/explicit/ill-named output, output pre-existing or not, stems ending in the letters "
-        "of the cut extension (volume.em, ctf_corr.mrc). 'seq' (G2): two or three calls in one process sharing the same ndarray "
+        "of the cut extension (volume.em, ctf_corr.mrc), a fifth of the MRC inputs big-endian (machine stamp 11 11). 'seq' (G2): two or three calls in one process sharing the same ndarray "
         "object (second file / other options), the same path (rewritten with another shape/dtype, then read), or the same converter "
         "input and output (convert, then invert over it / be refused), each step judged like a single case. non-trivial = pairwise "
         "distinct x,y,z sizes and >=24 voxels and not a rejected name; distinct = distinct case content")
 ASSUMPTIONS = [
     "mrcfile.write / emfile.write store the C-ordered array they are given with nx=shape[2], ny=shape[1], nz=shape[0] (Model.store); "
-    "checked byte-wise on every case by the harness's own header parsers, and the parsers are cross-checked against the libraries by probes",
+    "checked on every case on the file's BYTES by the Lean decoders (decodeMrc/decodeEm, proved left inverses of encodeMrc/encodeEm); the "
+    "harness's Python parsers are cross-checked against them on every case and against the libraries by probes",
+    "voxel value <-> bit pattern on disk (IEEE-754 binary32/64, two's complement int8/int16) is the driver's Drv.toWord/ofWord (Lean Float32/"
+    "Int64 primitives); the byte-level theorems take it as the hypothesis `Representable`; validated on every voxel of every case",
+    "emfile reads and writes little-endian only (ignores the machine byte); big-endian EM inputs are not generated",
     "numpy astype(float32) = IEEE round-to-nearest-even = Lean Float.toFloat32 (compared bit for bit on every float64 case)",
     "data_type=int16/int8 on float data is numpy's C conversion of the float64/float32 value itself: truncation toward zero, applied directly "
     "(never through float32); Drv.cast implements that; generated for finite in-range values only (out-of-range / NaN are undefined in C); "
@@ -37,7 +45,8 @@ ASSUMPTIONS = [
     "contrast inversion of the most negative int8/int16 value (-128 / -32768) wraps in numpy; such voxels are not generated for invert cases",
     "file-system behaviour is modelled as a name->content map; that a refused write leaves the bytes on disk untouched is validated (hash), not proved",
 ]
-TRUSTED = ["harness MRC (1024-byte header) and EM (512-byte header) parsers and EM/MRC writers in props/c11.py",
+TRUSTED = ["hex transport of file bytes to the driver; Drv.toWord/ofWord (value <-> bit pattern); harness EM/MRC WRITERS for converter inputs "
+           "(each input file is decoded by the Lean decoder and checked against the case's array: check_input)",
            "numpy as the independent evaluator of the statement (Fortran-order flattening = x fastest)"]
 REL = "cryocat/cryomap.py"
 DTYPES = ["float32", "float64", "int16", "int8"]
@@ -47,15 +56,16 @@ NAN_BITS = 0x7FF8000000000000
 
 
 # ------------------------------------------------------------------ translator
-# Every anchor works on a NORMALISED copy of the function (`_norm_fn`): docstrings dropped, required positional
-# parameters renamed by position (_p0, _p1 ..), local variables / inner functions renamed in order of first
-# binding (_v0, _v1 ..), exception messages dropped.  Keyword-able parameters (those with a default) keep their
+# Every anchor works on a NORMALISED copy of the function (`_norm_fn`): docstrings, type annotations, exception
+# messages and print/log texts dropped (H1); identifiers renamed BY BINDING, scope aware (H2): required positional
+# parameters by position (_p0, _p1 ..), locals / inner functions / their parameters in order of first occurrence
+# (_v0, _v1 ..), never-read bindings (discards) as `_`.  Keyword-able parameters (those with a default) keep their
 # names: they are the public keywords and are anchored, with their defaults, by the `*Sig` items.  A missing
 # anchor is recorded (anchorsOk = false breaks `anchors_ok`) and the DOCUMENTED value is emitted, so that the
 # model keeps the documented behaviour and the correspondence run can still exhibit a concrete failing input.
 DOC = dict(
     axes=[[2, 1, 0], "transpose and _p0.ndim == 3"], raxes=[[2, 1, 0], "transpose"],
-    write=dict(steps=["astype(data_type)", "transpose", "narrow", "dispatch"], narrow=("float64", "float32"),
+    write=dict(steps=["astype(data_type)", "byteorder", "transpose", "narrow", "dispatch"], narrow=("float64", "float32"),
                mrc=[".mrc", ".rec"], em=[".em"], ow=True),
     read=dict(exts=["mrc", "ali", "rec", "st"], numeric=True, em=[".em"]),
     em2mrc=dict(inp=".em", out=".mrc", cut=2, app="mrc", factor=-1, plain=True),
@@ -72,52 +82,41 @@ def _is_doc(st):
     return isinstance(st, ast.Expr) and isinstance(st.value, ast.Constant) and isinstance(st.value.value, str)
 
 
-def _norm_fn(fn):
-    """normalised private copy of a FunctionDef (see the comment above)"""
-    fn = ast.parse(ast.unparse(fn)).body[0]
-    a = fn.args
-    pos = a.posonlyargs + a.args
-    nreq = len(pos) - len(a.defaults)
-    ren = {p.arg: f"_p{i}" for i, p in enumerate(pos[:nreq])}
-    keep = {p.arg for p in pos[nreq:]} | {p.arg for p in a.kwonlyargs}
+# calls whose string arguments are messages for a human (H1): their wording is not behaviour
+LOG_FUNCS = {"print", "warn", "debug", "info", "warning", "error", "critical", "exception", "log"}
+_REV = {}   # function name -> {canonical identifier: identifier in the source}, for messages that quote the source (H2)
 
-    def bind(name):
-        if name not in ren and name not in keep:
-            ren[name] = f"_v{sum(1 for v in ren.values() if v.startswith('_v'))}"
 
-    class Bind(ast.NodeVisitor):
-        def visit_Name(self, n):
-            if isinstance(n.ctx, (ast.Store, ast.Del)):
-                bind(n.id)
+class _Binding:
+    __slots__ = ("name", "fixed", "seq", "loads", "param", "canon")
 
-        def visit_FunctionDef(self, n):
-            bind(n.name)
-            for q in n.args.posonlyargs + n.args.args + n.args.kwonlyargs:
-                bind(q.arg)
+    def __init__(self, name, fixed=None, param=False):
+        self.name, self.fixed, self.seq, self.loads, self.param, self.canon = name, fixed, None, 0, param, None
+
+
+def _strip_fn(fn):
+    """drop what is not behaviour: docstrings, annotations (`x: T = v` becomes `x = v`, a bare `x: T` disappears), the
+    arguments of raised exceptions and `from` causes, the text handed to print / warnings.warn / logger calls"""
+    class Strip(ast.NodeTransformer):
+        def visit_AnnAssign(self, n):
             self.generic_visit(n)
-
-        def visit_ExceptHandler(self, n):
-            if n.name:
-                bind(n.name)
-            self.generic_visit(n)
-
-    class Ren(ast.NodeTransformer):
-        def visit_Name(self, n):
-            n.id = ren.get(n.id, n.id)
-            return n
+            if n.value is None:
+                return None
+            return ast.copy_location(ast.Assign(targets=[n.target], value=n.value), n)
 
         def visit_arg(self, n):
-            n.arg = ren.get(n.arg, n.arg)
             n.annotation = None
             return n
 
-        def visit_FunctionDef(self, n):
-            n.name = ren.get(n.name, n.name)
+        def _fn(self, n):
             n.returns = None
             if n.body and _is_doc(n.body[0]):
-                n.body = n.body[1:] or [ast.Pass()]
+                n.body = n.body[1:]
             self.generic_visit(n)
+            n.body = n.body or [ast.Pass()]
             return n
+
+        visit_FunctionDef = visit_AsyncFunctionDef = _fn
 
         def visit_Raise(self, n):
             if isinstance(n.exc, ast.Call):
@@ -125,20 +124,186 @@ def _norm_fn(fn):
             n.cause = None
             return n
 
-        def visit_ExceptHandler(self, n):
-            if n.name:
-                n.name = ren.get(n.name, n.name)
+        def visit_Call(self, n):
             self.generic_visit(n)
+            f = n.func
+            fname = f.id if isinstance(f, ast.Name) else f.attr if isinstance(f, ast.Attribute) else None
+            if fname in LOG_FUNCS and not (isinstance(f, ast.Attribute) and isinstance(f.value, ast.Name) and f.value.id in ("np", "numpy", "math")):
+                n.args = [ast.Constant("<msg>") if isinstance(a, (ast.JoinedStr, ast.Constant)) and (
+                    isinstance(a, ast.JoinedStr) or isinstance(a.value, str)) else a for a in n.args]
             return n
 
-    if fn.body and _is_doc(fn.body[0]):
-        fn.body = fn.body[1:] or [ast.Pass()]
+    fn = Strip().visit(fn)
+    for holder in ast.walk(fn):      # a block emptied by the removal of a bare annotation
+        if not isinstance(holder, ast.Module) and isinstance(getattr(holder, "body", None), list) and not holder.body:
+            holder.body = [ast.Pass()]
+    return fn
+
+
+def _scope_locals(node):
+    """names bound in the scope opened by `node` (a def / lambda / comprehension), not descending into nested scopes"""
+    names, outside = [], set()
+
+    def add(n):
+        if n not in names:
+            names.append(n)
+
+    a = getattr(node, "args", None)
+    if isinstance(a, ast.arguments):
+        for q in a.posonlyargs + a.args + ([a.vararg] if a.vararg else []) + a.kwonlyargs + ([a.kwarg] if a.kwarg else []):
+            add(q.arg)
+
+    def walk(n, top=False):
+        if not top and isinstance(n, (ast.FunctionDef, ast.AsyncFunctionDef, ast.ClassDef)):
+            add(n.name)
+            return
+        if not top and isinstance(n, (ast.Lambda, ast.ListComp, ast.SetComp, ast.DictComp, ast.GeneratorExp)):
+            return
+        if isinstance(n, (ast.Global, ast.Nonlocal)):
+            outside.update(n.names)
+        elif isinstance(n, ast.Name) and isinstance(n.ctx, (ast.Store, ast.Del)):
+            add(n.id)
+        elif isinstance(n, ast.ExceptHandler) and n.name:
+            add(n.name)
+        for ch in ast.iter_child_nodes(n):
+            if top and isinstance(n, (ast.FunctionDef, ast.AsyncFunctionDef, ast.Lambda)) and ch is n.args:
+                continue
+            if top and isinstance(n, (ast.FunctionDef, ast.AsyncFunctionDef)) and (ch in n.decorator_list):
+                continue
+            walk(ch)
+
+    walk(node, top=True)
+    return [n for n in names if n not in outside]
+
+
+def _norm_fn(fn):
+    """normalised private copy of a FunctionDef: see `_strip_fn`; then every identifier is renamed BY BINDING (scope
+    aware: a parameter of an inner function and a variable of the outer one are different bindings even when they
+    carry the same name): required positional parameters of the function itself `_p0, _p1 ..`, its keyword-able
+    parameters keep their names (they are public and anchored by the `*Sig` items), every other binding `_v0, _v1 ..`
+    in order of first occurrence, and a binding that is never read (a discard: `_`, `unused`, ..) is written `_`, each
+    occurrence on its own.  Renaming any local, parameter or discard therefore changes nothing."""
+    fn = _strip_fn(ast.parse(ast.unparse(fn)).body[0])
+    counter = [0]
+    allb = []
+
+    def touch(b):
+        if b.seq is None:
+            b.seq = counter[0]
+            counter[0] += 1
+
+    def new_scope(node, env, top=False):
+        env = dict(env)
+        a = getattr(node, "args", None)
+        fixed = {}
+        if top:
+            pos = a.posonlyargs + a.args
+            nreq = len(pos) - len(a.defaults)
+            fixed = {p.arg: f"_p{i}" for i, p in enumerate(pos[:nreq])}
+            for p in pos[nreq:] + a.kwonlyargs + ([a.vararg] if a.vararg else []) + ([a.kwarg] if a.kwarg else []):
+                fixed[p.arg] = p.arg
+        params = set()
+        if isinstance(a, ast.arguments):
+            params = {q.arg for q in a.posonlyargs + a.args + a.kwonlyargs + ([a.vararg] if a.vararg else []) + ([a.kwarg] if a.kwarg else [])}
+        for name in _scope_locals(node):
+            b = _Binding(name, fixed.get(name), name in params)
+            env[name] = b
+            allb.append(b)
+        return env
+
+    def visit(n, env):
+        if isinstance(n, (ast.FunctionDef, ast.AsyncFunctionDef)):
+            b = env.get(n.name)
+            if b is not None:
+                touch(b)
+                n._b = b
+            for d in n.decorator_list:
+                visit(d, env)
+            for d in n.args.defaults + [k for k in n.args.kw_defaults if k is not None]:
+                visit(d, env)
+            inner = new_scope(n, env)
+            for q in n.args.posonlyargs + n.args.args + ([n.args.vararg] if n.args.vararg else []) + n.args.kwonlyargs + ([n.args.kwarg] if n.args.kwarg else []):
+                touch(inner[q.arg])
+                q._b = inner[q.arg]
+            for st in n.body:
+                visit(st, inner)
+            return
+        if isinstance(n, ast.Lambda):
+            for d in n.args.defaults + [k for k in n.args.kw_defaults if k is not None]:
+                visit(d, env)
+            inner = new_scope(n, env)
+            for q in n.args.posonlyargs + n.args.args + ([n.args.vararg] if n.args.vararg else []) + n.args.kwonlyargs + ([n.args.kwarg] if n.args.kwarg else []):
+                touch(inner[q.arg])
+                q._b = inner[q.arg]
+            visit(n.body, inner)
+            return
+        if isinstance(n, (ast.ListComp, ast.SetComp, ast.DictComp, ast.GeneratorExp)):
+            inner = new_scope(n, env)
+            for g in n.generators:       # evaluation order: the generators first, then the element
+                visit(g.iter, inner)
+                visit(g.target, inner)
+                for c in g.ifs:
+                    visit(c, inner)
+            for fld in ("elt", "key", "value"):
+                if hasattr(n, fld):
+                    visit(getattr(n, fld), inner)
+            return
+        if isinstance(n, ast.Name):
+            b = env.get(n.id)
+            if b is not None:
+                touch(b)
+                n._b = b
+                if isinstance(n.ctx, ast.Load):
+                    b.loads += 1
+            return
+        if isinstance(n, ast.AugAssign) and isinstance(n.target, ast.Name) and n.target.id in env:
+            env[n.target.id].loads += 1      # `x += 1` reads x
+        if isinstance(n, ast.ExceptHandler) and n.name and n.name in env:
+            touch(env[n.name])
+            n._b = env[n.name]
+        for ch in ast.iter_child_nodes(n):
+            visit(ch, env)
+
+    top_env = new_scope(fn, {}, top=True)
+    a = fn.args
+    for d in a.defaults + [k for k in a.kw_defaults if k is not None]:
+        visit(d, {})
+    for q in a.posonlyargs + a.args + ([a.vararg] if a.vararg else []) + a.kwonlyargs + ([a.kwarg] if a.kwarg else []):
+        touch(top_env[q.arg])
+        q._b = top_env[q.arg]
     for st in fn.body:
-        Bind().visit(st)
-    name = fn.name
-    fn = Ren().visit(fn)
-    fn.name = name
-    return ast.parse(ast.unparse(fn)).body[0]
+        visit(st, top_env)
+    k = 0
+    rev = {}
+    for b in sorted((b for b in allb if b.seq is not None), key=lambda b: b.seq):
+        if b.fixed is not None:
+            b.canon = b.fixed
+        elif b.loads == 0 and not b.param:
+            b.canon = "_"
+        else:
+            b.canon = f"_v{k}"
+            k += 1
+        if b.canon != "_":
+            rev[b.canon] = b.name
+    for n in ast.walk(fn):
+        b = getattr(n, "_b", None)
+        if b is None:
+            continue
+        if isinstance(n, ast.Name):
+            n.id = b.canon
+        elif isinstance(n, ast.arg):
+            n.arg = b.canon
+        elif isinstance(n, (ast.FunctionDef, ast.AsyncFunctionDef, ast.ExceptHandler)):
+            n.name = b.canon
+    _REV[fn.name] = rev
+    out = ast.parse(ast.unparse(fn)).body[0]
+    return out
+
+
+def _denorm(text, fname):
+    """a message about the normalised function, with the identifiers as they are written in the source"""
+    rev = _REV.get(fname, {})
+    return re.sub(r"\b_[pv][0-9]+\b", lambda m: rev.get(m.group(0), m.group(0)), text)
 
 
 def _body_dump(fn):
@@ -239,6 +404,8 @@ def _write_anchors(src):
         body_txt = ast.unparse(ast.Module(body=st.body, type_ignores=[]))
         if t == "data_type is not None" and body_txt == "_p0 = _p0.astype(data_type)" and not st.orelse:
             steps.append("astype(data_type)")
+        elif t == "_p0.dtype.byteorder == '>'" and body_txt == "_p0 = _p0.astype(_p0.dtype.newbyteorder('<'))" and not st.orelse:
+            steps.append("byteorder")       # big-endian data -> little-endian, the byte order the written headers declare
         elif ".transpose(" in body_txt:
             steps.append("transpose")
         elif isinstance(st.test, ast.Compare) and ".dtype" in t and "astype" in body_txt:
@@ -354,12 +521,21 @@ def _lean_strs(xs):
 
 
 def translate(src):
-    w_ax = src.anchor("write:transpose-axes/guard/only-axis-op", lambda: list(_transpose_anchor(src.find(REL, "write"), "write")))
-    r_ax = src.anchor("read:transpose-axes/guard/only-axis-op", lambda: list(_transpose_anchor(src.find(REL, "read"), "read")))
-    w = src.anchor("write:steps/narrowing/extension-dispatch", lambda: _write_anchors(src))
-    r = src.anchor("read:name-pattern/extension-dispatch", lambda: _read_anchors(src))
-    e2m = src.anchor("em2mrc:names/factor/calls", lambda: _conv_anchors(src, "em2mrc"))
-    m2e = src.anchor("mrc2em:names/factor/calls", lambda: _conv_anchors(src, "mrc2em"))
+    def quoting(fname, f):
+        """H2: an AnchorMissing text names the identifiers as the source writes them, not `_p0` / `_v3`"""
+        def run():
+            try:
+                return f()
+            except core.AnchorMissing as e:
+                raise core.AnchorMissing(_denorm(str(e), fname))
+        return run
+
+    w_ax = src.anchor("write:transpose-axes/guard/only-axis-op", quoting("write", lambda: list(_transpose_anchor(src.find(REL, "write"), "write"))))
+    r_ax = src.anchor("read:transpose-axes/guard/only-axis-op", quoting("read", lambda: list(_transpose_anchor(src.find(REL, "read"), "read"))))
+    w = src.anchor("write:steps/narrowing/extension-dispatch", quoting("write", lambda: _write_anchors(src)))
+    r = src.anchor("read:name-pattern/extension-dispatch", quoting("read", lambda: _read_anchors(src)))
+    e2m = src.anchor("em2mrc:names/factor/calls", quoting("em2mrc", lambda: _conv_anchors(src, "em2mrc")))
+    m2e = src.anchor("mrc2em:names/factor/calls", quoting("mrc2em", lambda: _conv_anchors(src, "mrc2em")))
     sig, body = {}, {}
     for f in ("write", "read", "em2mrc", "mrc2em"):
         sig[f] = src.anchor(f"{f}:signature(keywords and defaults)", lambda f=f: _signature(src.find(REL, f))) or DOC["sig"][f]
@@ -441,20 +617,23 @@ def parse_mrc(path):
     raw = open(path, "rb").read()
     if len(raw) < 1024:
         return dict(kind="mrc", bad="short header")
-    nx, ny, nz, mode = struct.unpack("<4i", raw[:16])
-    mapc, mapr, maps = struct.unpack("<3i", raw[64:76])
-    nsymbt = struct.unpack("<i", raw[92:96])[0]
     tag, stamp = raw[208:212], raw[212:214]
+    # machine stamp: 0x44 0x44 / 0x44 0x41 little-endian, 0x11 0x11 big-endian (both are valid MRC2014 files)
+    bo = ">" if stamp == b"\x11\x11" else "<"
+    nx, ny, nz, mode = struct.unpack(bo + "4i", raw[:16])
+    mapc, mapr, maps = struct.unpack(bo + "3i", raw[64:76])
+    nsymbt = struct.unpack(bo + "i", raw[92:96])[0]
     dt = MRC_MODES.get(mode)
     out = dict(kind="mrc", dims=[nx, ny, nz], mode=mode, dtype=dt, mapcrs=[mapc, mapr, maps], nsymbt=nsymbt,
-               map_tag_ok=(tag == b"MAP "), little_endian=(stamp == b"\x44\x44" or stamp == b"\x44\x41"))
+               map_tag_ok=(tag == b"MAP "), little_endian=(stamp == b"\x44\x44" or stamp == b"\x44\x41"),
+               stamp_ok=stamp in (b"\x44\x44", b"\x44\x41", b"\x11\x11"))
     if dt is None or min(nx, ny, nz) < 0:
         out["bad"] = "mode/dims"
         return out
     payload = raw[1024 + nsymbt:]
     out["size_ok"] = (len(payload) == nx * ny * nz * ITEM[dt])
     n = len(payload) // ITEM[dt]
-    out["data"] = _bits(np.frombuffer(payload[: n * ITEM[dt]], dtype=np.dtype(dt).newbyteorder("<")))
+    out["data"] = _bits(np.frombuffer(payload[: n * ITEM[dt]], dtype=np.dtype(dt).newbyteorder(bo)))
     return out
 
 
@@ -490,25 +669,28 @@ def write_em_own(path, vol_xyz):
         f.write(hdr + np.ascontiguousarray(vol_xyz).astype(vol_xyz.dtype.newbyteorder("<")).tobytes(order="F"))
 
 
-def write_mrc_own(path, vol_xyz):
-    """own minimal MRC2014 writer: 1024-byte header, x fastest, mapc/r/s = 1,2,3, space group 1 (volume)"""
+def write_mrc_own(path, vol_xyz, big=False):
+    """own minimal MRC2014 writer: 1024-byte header, x fastest, mapc/r/s = 1,2,3, space group 1 (volume); `big`: the
+    whole file (header numbers and payload) in big-endian byte order with machine stamp 0x11 0x11, as written on / by
+    big-endian platforms and by mrcfile for big-endian arrays"""
     mode = {v: k for k, v in MRC_MODES.items()}[vol_xyz.dtype.name]
     nx, ny, nz = vol_xyz.shape
+    bo = ">" if big else "<"
     h = bytearray(1024)
-    h[0:16] = struct.pack("<4i", nx, ny, nz, mode)
-    h[28:40] = struct.pack("<3i", nx, ny, nz)          # mx my mz
-    h[40:52] = struct.pack("<3f", nx, ny, nz)          # cella
-    h[52:64] = struct.pack("<3f", 90.0, 90.0, 90.0)    # cellb
-    h[64:76] = struct.pack("<3i", 1, 2, 3)
+    h[0:16] = struct.pack(bo + "4i", nx, ny, nz, mode)
+    h[28:40] = struct.pack(bo + "3i", nx, ny, nz)          # mx my mz
+    h[40:52] = struct.pack(bo + "3f", nx, ny, nz)          # cella
+    h[52:64] = struct.pack(bo + "3f", 90.0, 90.0, 90.0)    # cellb
+    h[64:76] = struct.pack(bo + "3i", 1, 2, 3)
     v = vol_xyz.astype(np.float64)
-    h[76:88] = struct.pack("<3f", float(v.min()), float(v.max()), float(v.mean()))
-    h[88:92] = struct.pack("<i", 1)                    # ispg = 1: a volume (0 would make nz=1 a 2-D image for mrcfile)
-    h[108:112] = struct.pack("<i", 20140)
+    h[76:88] = struct.pack(bo + "3f", float(v.min()), float(v.max()), float(v.mean()))
+    h[88:92] = struct.pack(bo + "i", 1)                    # ispg = 1: a volume (0 would make nz=1 a 2-D image for mrcfile)
+    h[108:112] = struct.pack(bo + "i", 20140)
     h[208:212] = b"MAP "
-    h[212:216] = b"\x44\x44\x00\x00"
-    h[216:220] = struct.pack("<f", float(v.std()))
+    h[212:216] = b"\x11\x11\x00\x00" if big else b"\x44\x44\x00\x00"
+    h[216:220] = struct.pack(bo + "f", float(v.std()))
     with open(path, "wb") as f:
-        f.write(bytes(h) + np.ascontiguousarray(vol_xyz).astype(vol_xyz.dtype.newbyteorder("<")).tobytes(order="F"))
+        f.write(bytes(h) + np.ascontiguousarray(vol_xyz).astype(vol_xyz.dtype.newbyteorder(bo)).tobytes(order="F"))
 
 
 # ------------------------------------------------------------------ arrays from case descriptions
@@ -563,7 +745,7 @@ def build(case):
 
 
 FRAC_OFFSETS = [0.99999999, -0.99999999, 0.9999999999, -0.9999999999, 0.5, -0.5, 0.25, -0.75, 0.0, 1e-9, -1e-9, 0.999, -0.001]
-LAYOUTS = ["C", "F", "tview", "strided", "from_read"]
+LAYOUTS = ["C", "F", "tview", "strided", "from_read", "bigendian"]
 
 
 def _apply_layout(a, layout):
@@ -572,6 +754,8 @@ def _apply_layout(a, layout):
         return np.asfortranarray(a)
     if layout == "tview":    # a transposed view of a C-ordered (z,y,x) array: what `something.transpose(2,1,0)` / `.T` gives
         return np.ascontiguousarray(a.transpose(2, 1, 0)).transpose(2, 1, 0)
+    if layout == "bigendian":   # what cryomap.read / mrcfile return for a big-endian MRC file (stamp 0x11 0x11): dtype '>f4', '>i2'
+        return a.astype(a.dtype.newbyteorder(">"))
     if layout == "strided":  # every second element of a larger buffer along x and z
         big = np.zeros((2 * a.shape[0], a.shape[1], 2 * a.shape[2] + 1), dtype=a.dtype)
         v = big[::2, :, 1::2]
@@ -710,9 +894,31 @@ def _conv_case(rng, shape):
         case["in_name"] = stem + rng.choice([".rec", ".map", "." + out_ext, ".EM"])
     if rng.random() < 0.15:     # the plain call em2mrc(p) / mrc2em(p)
         case.update(invert=False, overwrite=True, output=None)
+    if which == "mrc2em" and rng.random() < 0.2:
+        case["endian"] = "big"  # a big-endian MRC file (machine stamp 0x11 0x11); emfile has no big-endian reader, so EM inputs stay little-endian
     case["omit"] = _omit(rng, case, DEFAULTS_CONV)
     case["fill"] = _fill(rng, dtype, [], invert=invert)
     case["plant"] = _plant(rng, dtype, shape[0] * shape[1] * shape[2], allow=True, invert=invert)
+    return case
+
+
+# converter inputs at the upper end of the quantifier (sizes up to 48, pairwise distinct)
+CONV_TOP_SHAPES = [(48, 47, 46), (46, 48, 47), (47, 46, 48), (48, 45, 47), (44, 48, 46), (45, 47, 48)]
+
+
+def _big_conv_case(rng, which, shape, invert=None):
+    """a plain conversion of a large map: default output name, nothing in the way"""
+    for _ in range(200):
+        case = _conv_case(rng, shape)
+        if case["which"] == which:
+            break
+    if invert is not None:
+        case["invert"] = invert
+    case.update(which=which, output=None, exists=False, plant=[], in_name="big." + ("em" if which == "em2mrc" else "mrc"))
+    if which == "mrc2em" and case["dtype"] == "float64":
+        case["dtype"] = "float32"
+    case["omit"] = _omit(rng, case, DEFAULTS_CONV)
+    case["fill"] = _fill(rng, case["dtype"], [], invert=case["invert"])
     return case
 
 
@@ -778,11 +984,15 @@ def generate(rng, tier, n):
             case = _rw_case(rng, s, d, e, simple=True)
             case["omit"] = _omit(rng, case, DEFAULTS_RW)
             yield case
-        case = _conv_case(rng, rng.choice(LARGE_SHAPES[:6]))
-        case.update(output=None, exists=False, plant=[])
-        case["in_name"] = "big." + ("em" if case["which"] == "em2mrc" else "mrc")
-        case["omit"] = _omit(rng, case, DEFAULTS_CONV)
-        yield case
+        # converter inputs of the size the quantifier names (sizes up to 48 per axis): quick runs BOTH converters once on
+        # a map of >= 40^3 voxels (pairwise distinct sizes, so that any permutation of the axes shows), thorough runs
+        # both converters x invert on/off on (48,47,46)-class maps plus every LARGE_SHAPE
+        big = [(40, 41, 42), (42, 40, 44), (41, 43, 40), (44, 41, 40), (40, 42, 45)] if tier == "quick" else CONV_TOP_SHAPES
+        plan = [(w, rng.choice(big), None) for w in ("em2mrc", "mrc2em")] if tier == "quick" else (
+            [(w, sh, inv) for w in ("em2mrc", "mrc2em") for inv in (False, True) for sh in rng.sample(CONV_TOP_SHAPES, 2)]
+            + [(rng.choice(["em2mrc", "mrc2em"]), sh, None) for sh in LARGE_SHAPES])
+        for which, shp, inv in plan:
+            yield _big_conv_case(rng, which, shp, inv)
     if tier == "thorough":
         for s in [(48, 47, 46), (1, 48, 47), (48, 1, 2), (2, 3, 48), (48, 48, 48), (47, 2, 48)]:
             yield _rw_case(rng, s)
@@ -798,7 +1008,7 @@ def generate(rng, tier, n):
         elif k < 0.68:
             yield _seq_case(rng, min(cap, 2000))
         else:
-            yield _conv_case(rng, _shape(rng, min(cap, 4000)))
+            yield _conv_case(rng, _shape(rng, min(cap, 4000) if tier != "thorough" else cap))
 
 
 def search_cases(rng, broken, anchors):
@@ -815,6 +1025,9 @@ def search_cases(rng, broken, anchors):
                         yield c
     for s in LARGE_SHAPES[:3]:
         yield _rw_case(rng, s, "float32", "mrc", simple=True)
+    for which in ("em2mrc", "mrc2em"):
+        for s in (CONV_TOP_SHAPES[0], LARGE_SHAPES[0]):
+            yield _big_conv_case(rng, which, s, False)
     for which in ("em2mrc", "mrc2em"):
         for inv in (False, True):
             for ow in (False, True):
@@ -869,20 +1082,31 @@ def shrink(case):
         for k, v in (("exists", False), ("output", None), ("overwrite", True), ("invert", False)):
             if case.get(k) != v and k not in case.get("omit", []):
                 yield dict(case, **{k: v})
+        if case.get("endian"):
+            yield {k: v for k, v in case.items() if k != "endian"}
 
 
 # ------------------------------------------------------------------ implementation
-def _err_kind(e):
-    m = str(e)
-    if "exist" in m:
-        return "exists"
-    if "has to end with" in m or "neither em or mrc" in m:
-        return "bad-extension"
-    if "must be .em file" in m or "is not .mrc file" in m or "Input file" in m or "Input is not" in m:
-        return "bad-input-name"
-    if "must end with .mrc" in m or "is not .em file" in m:
-        return "bad-output-name"
-    return "other:" + type(e).__name__ + ":" + m[:120]
+def _refusal(e):
+    """H1: a refusal is described by the exception TYPE and by where it was raised (a `raise` of cryocat itself, or a
+    library that cryocat called) -- never by the wording of its message, which is kept for the report only"""
+    import traceback
+    tb = traceback.extract_tb(e.__traceback__)
+    last = tb[-1].filename.replace("\\", "/") if tb else ""
+    if "/cryocat/" in last:
+        origin = "cryocat"
+    else:
+        parts = [q for q in last.split("/") if q]
+        origin = "library:" + (parts[-2] if len(parts) >= 2 and parts[-1].endswith(".py") and parts[-2] not in ("site-packages",) else os.path.basename(last)[:-3])
+    return {"type": type(e).__name__, "origin": origin, "msg": str(e)[:160]}
+
+
+def _rtxt(r):
+    return f"{r.get('type')} raised by {r.get('origin')}: {r.get('msg')}" if isinstance(r, dict) else str(r)
+
+
+def _rlabel(r):
+    return f"{r.get('type')}@{r.get('origin')}" if isinstance(r, dict) else str(r)
 
 
 def _read_name(case):
@@ -960,6 +1184,18 @@ def _input_array(cryomap, case, td, out):
     """the caller's array in the memory layout the case asks for"""
     a = build(case)
     layout = case.get("layout", "C")
+    if layout == "bigendian" and a.dtype != np.float64 and a.dtype.itemsize > 1:
+        # the natural source of a big-endian array: cryomap.read of a big-endian MRC file (made by the harness's writer);
+        # the array read() returned is handed to write() as it is
+        own = os.path.join(td, "own_be_src.mrc")
+        write_mrc_own(own, a, big=True)
+        b = cryomap.read(own)
+        out["src_read"] = _arr_obs(b)
+        out["src_byteorder"] = getattr(getattr(b, "dtype", None), "byteorder", "?")
+        os.remove(own)
+        if not isinstance(b, np.ndarray) or b.shape != a.shape or b.dtype.name != a.dtype.name or not _same_array(b.astype(a.dtype), a):
+            return _apply_layout(a, layout)
+        return b
     if layout != "from_read":
         return _apply_layout(a, layout)
     # read() -> arithmetic -> write(): the array comes out of cryomap.read of a file made by the harness's own writer
@@ -1007,12 +1243,13 @@ def _run_rw(cryomap, case, td, shared=None):
         if not _in_cryocat(e):
             raise
         out["input_unchanged"] = _same_array(a, pristine)
-        return dict(out, write={"reject": _err_kind(e)}, files=sorted(os.listdir(td)))
+        return dict(out, write={"reject": _refusal(e)}, files=sorted(os.listdir(td)))
     out["input_unchanged"] = _same_array(a, pristine)
     out["files"] = sorted(os.listdir(td))
     if not os.path.exists(p):
-        return dict(out, write={"reject": "no-file-written"})
+        return dict(out, write={"reject": {"type": "none", "origin": "cryocat", "msg": "returned normally but wrote no file"}})
     out["write"] = parse_by_content(p)
+    out["write_raw"] = open(p, "rb").read().hex()     # the bytes themselves: decoded by the Lean decoders (requests/judge)
     rn = _read_name(case)
     rp = os.path.join(td, rn)
     if rp != p:
@@ -1030,7 +1267,7 @@ def _run_rw(cryomap, case, td, shared=None):
     except Exception as e:
         if not _in_cryocat(e):
             raise
-        out["back"] = {"reject": _err_kind(e)}
+        out["back"] = {"reject": _refusal(e)}
     out["input_unchanged"] = out["input_unchanged"] and _same_array(a, pristine)
     return out
 
@@ -1053,7 +1290,10 @@ def _run_conv(cryomap, case, td):
     pin = os.path.join(td, case["in_name"])
     # the input file is made by the harness's own writers (stand-in for other cryo-EM software)
     real_em = (case["which"] == "em2mrc")
-    (write_em_own if real_em else write_mrc_own)(pin, a)
+    if real_em:
+        write_em_own(pin, a)
+    else:
+        write_mrc_own(pin, a, big=(case.get("endian") == "big"))
     out_ext = "mrc" if case["which"] == "em2mrc" else "em"
     pout = os.path.join(td, _conv_documented_out(case))
     pre = None
@@ -1068,9 +1308,11 @@ def _run_conv(cryomap, case, td):
             os.remove(pout)
     in_sha = _sha(pin)
     fn = getattr(cryomap, case["which"])
-    res = {"input": (parse_em if real_em else parse_mrc)(pin), "files_before": sorted(os.listdir(td))}
+    res = {"input": (parse_em if real_em else parse_mrc)(pin), "files_before": sorted(os.listdir(td)),
+           "input_raw": open(pin, "rb").read().hex()}
     if pre is not None:
         res["pre"] = parse_by_content(pout)
+        res["pre_raw"] = open(pout, "rb").read().hex()
     omit = case.get("omit", [])
     kw = {}
     if "invert" not in omit:
@@ -1086,13 +1328,16 @@ def _run_conv(cryomap, case, td):
     except Exception as e:
         if not _in_cryocat(e):
             raise
-        res["result"] = _err_kind(e)
+        res["result"] = "refused"
+        res["refusal"] = _refusal(e)
     res["files"] = sorted(os.listdir(td))
     res["input_unchanged"] = (_sha(pin) == in_sha)
     res["out_name"] = os.path.basename(pout)
     if os.path.exists(pout):
         res["out_sha_same_as_pre"] = (pre is not None and _sha(pout) == pre)
         res["out"] = parse_by_content(pout)
+        if res.get("result") == "ok":
+            res["out_raw"] = open(pout, "rb").read().hex()
     res["pre_existing"] = pre is not None
     return res
 
@@ -1129,7 +1374,9 @@ def requests(case, obs):
         if case["rdata_type"]:
             q["rdata_type"] = case["rdata_type"]
         w, b = obs.get("write"), obs.get("back")
-        if case["transpose"] and _wire_ok(w):
+        if isinstance(obs.get("write_raw"), str):
+            q["raw"] = obs["write_raw"]          # the real file's bytes: the driver decodes them with the verified decoders
+        elif case["transpose"] and _wire_ok(w):
             q["file"] = _file_json(w)
         if case["transpose"] == case["rtranspose"] and isinstance(b, dict) and isinstance(b.get("data"), list) and b.get("dtype") in DTYPES \
                 and len(b["shape"]) == 3 and len(b["data"]) == b["shape"][0] * b["shape"][1] * b["shape"][2]:
@@ -1137,7 +1384,9 @@ def requests(case, obs):
         return [q]
     fs = []
     inp = obs.get("input")
-    if _wire_ok(inp):
+    if isinstance(obs.get("input_raw"), str):
+        fs.append(dict(name=case["in_name"], raw=obs["input_raw"]))
+    elif _wire_ok(inp):
         fs.append(dict(name=case["in_name"], **_file_json(inp)))
     else:  # the observation is unusable: describe the input from the case itself
         a = build(case)
@@ -1146,7 +1395,9 @@ def requests(case, obs):
     out_name = obs.get("out_name")
     if obs.get("pre_existing") and out_name:
         pre = obs.get("pre")
-        if _wire_ok(pre):
+        if isinstance(obs.get("pre_raw"), str):
+            fs.append(dict(name=out_name, raw=obs["pre_raw"]))
+        elif _wire_ok(pre):
             fs.append(dict(name=out_name, **_file_json(pre)))
         else:
             sev = _bits(np.full(8, 7, dtype=np.float32))
@@ -1158,7 +1409,11 @@ def requests(case, obs):
         q["overwrite"] = case["overwrite"]
     if case["output"] is not None:
         q["output_name"] = case["output"]
-    if obs.get("result") == "ok" and _wire_ok(obs.get("out")):
+    if isinstance(obs.get("input_raw"), str):
+        q["in_arr"] = _arr_json(build(case))     # the driver checks that the harness-made input file holds this array, x fastest
+    if obs.get("result") == "ok" and isinstance(obs.get("out_raw"), str):
+        q["raw"] = obs["out_raw"]
+    elif obs.get("result") == "ok" and _wire_ok(obs.get("out")):
         q["file"] = _file_json(obs["out"])
     return [q]
 
@@ -1204,6 +1459,23 @@ def _name_verdicts(case):
     return w_ok, r_ok, ("em" if n.endswith(".em") else "mrc")
 
 
+def _decoded(model, py, out):
+    """the file as the Lean decoders (`decodeMrc`/`decodeEm`, proved inverse to the model's encoders) read its bytes: THE
+    oracle for what is on disk.  The harness's Python parser is only cross-checked against it (`corr`)."""
+    if not isinstance(model, dict) or "decoded" not in model:
+        return py                                   # no bytes went to the driver (model refused the call): Python parser
+    d = model["decoded"]
+    if d is None:
+        return dict(kind=(py or {}).get("kind"), bad="the verified decoder refuses the bytes: " + str(model.get("decode_error")))
+    w = dict(kind=d["kind"], dims=d["dims"], dtype=d["dtype"], data=d["data"], size_ok=True, mapcrs=[1, 2, 3], nsymbt=0,
+             map_tag_ok=True, little_endian=not d["big_endian"], machine=(3 if d["big_endian"] else 6))
+    if isinstance(py, dict) and "bad" not in py and py.get("size_ok") and \
+            (py.get("kind"), py.get("dims"), py.get("dtype"), py.get("data")) != (w["kind"], w["dims"], w["dtype"], w["data"]):
+        out.append(dict(kind="corr", clause="python-parser-vs-lean-decoder",
+                        detail=f"{py.get('kind')} {py.get('dims')} {py.get('dtype')} vs {w['kind']} {w['dims']} {w['dtype']}; data: " + _first_diff(py.get("data"), w["data"])))
+    return w
+
+
 def _judge_error(obs):
     """G4: an exception is the implementation's only when its traceback passes through cryocat"""
     if obs.get("where"):
@@ -1246,18 +1518,22 @@ def _judge_rw(case, obs, model):
     if not w_ok:
         if "reject" not in w:
             S("accepts-unsupported-extension", f"write({case['name']!r}) produced {obs.get('files')}")
-        elif w["reject"] != "bad-extension":
-            S("wrong-refusal", f"write({case['name']!r}): {w['reject']}")
+        elif w["reject"].get("type") == "none":
+            S("silently-ignores-unsupported-extension", f"write({case['name']!r}) returned normally and wrote nothing")
+        elif w["reject"].get("type") != "ValueError":
+            # documented: `Raises ValueError` for a name without one of the allowed extensions; the wording is free (H1)
+            C("refusal-type", f"write({case['name']!r}): documented ValueError, got {_rtxt(w['reject'])}")
         if model_err != "reject:bad-extension":
             C("model-accepts-name", f"{case['name']!r}: {str(model)[:200]}")
         return out
     if "reject" in w:
-        S("rejects-supported-extension", f"{call}: {w['reject']}")
+        S("rejects-supported-extension", f"{call}: {_rtxt(w['reject'])}")
         return out
     if model_err:
         C("model-rejects", f"{case['name']!r}: {model_err}")
     exp = _expected_rw(case)
-    # ---- bytes on disk (independent parsers + numpy; no model involved)
+    # ---- bytes on disk: read by the Lean decoders, compared with numpy's x-fastest flattening of the array
+    w = _decoded(model, w, out)
     if w.get("bad"):
         S("file-header", f"unparseable {w.get('kind')} file: {w['bad']}")
         return out
@@ -1282,6 +1558,10 @@ def _judge_rw(case, obs, model):
         mf = model["file"]
         if (mf["kind"], mf["dims"], mf["dtype"]) != (w["kind"], w["dims"], w["dtype"]) or mf["data"] != w.get("data"):
             C("file-vs-model", f"model file {mf['kind']} {mf['dims']} {mf['dtype']} vs real {w['kind']} {w['dims']} {w['dtype']}; data: " + _first_diff(mf["data"], w.get("data", [])))
+        if model.get("bytes_vs_model"):
+            C("bytes-vs-model", f"{call}: the bytes `encode (write ..)` of the model differ from the file's in: {model['bytes_vs_model']}")
+        if model.get("check_read_bytes") is False:
+            C("read-of-real-bytes-vs-model", f"the model's reader on the real file's bytes does not return what cryomap.read returned")
     # ---- read back
     b = obs["back"]
     ma = {} if model_err else model["arr"]
@@ -1289,8 +1569,8 @@ def _judge_rw(case, obs, model):
     if not r_ok:
         if "reject" not in b:
             S("reads-unsupported-extension", f"{rcall} returned an array")
-        elif b["reject"] != "bad-extension":
-            S("wrong-refusal", f"{rcall}: {b['reject']}")
+        elif b["reject"].get("type") != "ValueError":
+            C("refusal-type", f"{rcall}: documented ValueError, got {_rtxt(b['reject'])}")
         if not model_err and ma.get("error") != "reject:bad-extension":
             C("model-reads-name", f"{_read_name(case)!r}: {str(ma)[:200]}")
         return out
@@ -1303,7 +1583,7 @@ def _judge_rw(case, obs, model):
             C("model-cross-format", str(ma)[:200])
         return out
     if "reject" in b:
-        S("read-rejects-supported-name", f"{rcall}: {b['reject']}")
+        S("read-rejects-supported-name", f"{rcall}: {_rtxt(b['reject'])}")
         return out
     for tag, bb in (("", b), ("second read after the caller edited the first result: ", obs.get("back2"))):
         if bb is None:
@@ -1351,7 +1631,7 @@ def _judge_conv(case, obs, model):
     verdict, oname = _expected_conv(case)
     inp = obs["input"]
     omit = case.get("omit", [])
-    call = f"{case['which']}({case['in_name']!r}" + "".join(
+    call = ("[big-endian MRC input] " if case.get("endian") == "big" else "") + f"{case['which']}({case['in_name']!r}" + "".join(
         f", {k if k != 'output' else 'output_name'}={case[k]!r}" for k in ("invert", "overwrite", "output") if k not in omit) + ")"
     if verdict == "ok" and obs.get("pre_existing") and not case["overwrite"]:
         verdict = "exists"
@@ -1361,17 +1641,23 @@ def _judge_conv(case, obs, model):
         if obs["result"] == "ok":
             S("no-refusal" if verdict != "exists" else "overwrites-when-told-not-to",
               f"{call} with {obs.get('out_name')} present returned normally; documented refusal: {verdict}")
-        elif obs["result"] != verdict:
-            S("wrong-refusal", f"{call} raised {obs['result']}, documented {verdict}")
+        elif verdict in ("bad-input-name", "bad-output-name") and obs.get("refusal", {}).get("type") != "ValueError":
+            # WHICH precondition is violated comes from the call itself (`verdict`), the refusal is recognised by its
+            # type (documented: ValueError for a name of the wrong format); the message is free text (H1)
+            C("refusal-type", f"{call}: documented ValueError ({verdict}), got {_rtxt(obs.get('refusal'))}")
         if verdict == "exists" and not obs.get("out_sha_same_as_pre"):
             S("overwrites-when-told-not-to", f"{call}: existing {obs.get('out_name')} was modified although overwrite=False")
         if model.get("error") != "reject:" + verdict:
             C("model-refusal", f"model {str(model)[:200]} vs documented {verdict}")
         return out
     if obs["result"] != "ok":
-        S("refuses-valid-call", f"{call} (output present before: {obs.get('pre_existing')}): {obs['result']}")
+        S("refuses-valid-call", f"{call} (output present before: {obs.get('pre_existing')}): {_rtxt(obs.get('refusal'))}")
         return out
     o = obs.get("out")
+    if o is not None:
+        o = _decoded(model, o, out)
+    if model.get("check_input") is False:
+        C("harness-input-file", f"{call}: the input file made by the harness's writer does not hold the case's array (verified checker on the decoded bytes)")
     new_files = set(obs["files"]) - set(obs.get("files_before", []))
     if o is None or oname not in obs["files"]:
         S("output-name", f"{call}: documented output {oname!r}; new files in the directory: {sorted(new_files)}")
@@ -1387,8 +1673,9 @@ def _judge_conv(case, obs, model):
         S("file-format", f"output is a {o['kind']} file")
     if o["kind"] == "mrc" and not (o["mapcrs"] == [1, 2, 3] and o["nsymbt"] == 0 and o["map_tag_ok"] and o["little_endian"]):
         C("library-header-fact", f"mapc/r/s={o['mapcrs']} nsymbt={o['nsymbt']}")
-    if o["dims"] != inp["dims"] or not o.get("size_ok"):
-        S("header-dims", f"{call}: output nx,ny,nz={o['dims']} vs input {inp['dims']}")
+    in_dims = list(case["shape"])          # the input file holds the case's (x,y,z) array (`check_input`)
+    if o["dims"] != in_dims or not o.get("size_ok"):
+        S("header-dims", f"{call}: output nx,ny,nz={o['dims']} vs input {in_dims}")
     # float64 (EM only) is narrowed to float32 by write(); everything else keeps its type
     a = build(case)
     with np.errstate(all="ignore"):
@@ -1398,7 +1685,7 @@ def _judge_conv(case, obs, model):
         want = _bits(e.reshape(-1, order="F"))
     if o["dtype"] != e.dtype.name:
         S("file-dtype", f"{call}: output {o['dtype']}, input {inp['dtype']} demands {e.dtype.name}")
-    elif o["dims"] == inp["dims"] and o["data"] != want:
+    elif o["dims"] == in_dims and o["data"] != want:
         S("voxels-negated" if case["invert"] else "voxels-preserved", f"{call}: output payload: " + _first_diff(o["data"], want))
     if "check_convert" in model and not model["check_convert"]:
         S("verified-checker-rejects-conversion", f"{call}: checkConverted=false")
@@ -1410,6 +1697,8 @@ def _judge_conv(case, obs, model):
             C("model-output-name", f"{model['out_name']!r} vs {oname!r}")
         if (mf["kind"], mf["dims"], mf["dtype"]) != (o["kind"], o["dims"], o["dtype"]) or mf["data"] != o["data"]:
             C("file-vs-model", f"model {mf['kind']} {mf['dims']} {mf['dtype']} vs real {o['kind']} {o['dims']} {o['dtype']}; data: " + _first_diff(mf["data"], o["data"]))
+        if model.get("bytes_vs_model"):
+            C("bytes-vs-model", f"{call}: the bytes `encode` of the model's output differ from the file's in: {model['bytes_vs_model']}")
         unrelated = set(obs.get("files_before", [])) - {case["in_name"], oname}
         if sorted(model["names"]) != sorted(set(obs["files"]) - unrelated):
             C("files-vs-model", f"{sorted(model['names'])} vs {sorted(set(obs['files']) - unrelated)}")
@@ -1465,12 +1754,13 @@ def stats(case, obs, resps):
         if "back" in obs and isinstance(obs["back"], dict) and "dtype" in obs["back"]:
             d["returned_type"] = f"{obs['back'].get('pytype')}[{obs['back']['dtype']}]"
         if isinstance(obs.get("write"), dict):
-            d["outcome"] = "write-refused:" + obs["write"]["reject"] if "reject" in obs["write"] else (
-                "read-refused:" + obs["back"]["reject"] if "reject" in obs.get("back", {}) else "round-trip")
+            d["outcome"] = "write-refused:" + _rlabel(obs["write"]["reject"]) if "reject" in obs["write"] else (
+                "read-refused:" + _rlabel(obs["back"]["reject"]) if "reject" in obs.get("back", {}) else "round-trip")
             if "dtype" in obs["write"]:
                 d["file_dtype"] = f"{case['dtype']}->{obs['write']['dtype']}"
     else:
         d["which"] = case["which"]
+        d["input_byte_order"] = case.get("endian", "little")
         d["invert"] = str(case["invert"])
         d["overwrite/exists"] = f"{case['overwrite']}/{case['exists']}"
         om = case.get("omit", [])
@@ -1478,7 +1768,10 @@ def stats(case, obs, resps):
         d["stem_tail"] = "ends in e/m/r/c/." if case["in_name"].rsplit(".", 1)[0][-1:] in "emrc." else "other"
         d["invert&refuse"] = str(bool(case["invert"] and not case["overwrite"] and obs.get("pre_existing")))
         d["output"] = "default" if case["output"] is None else ("explicit" if _expected_conv(case)[0] != "bad-output-name" else "explicit-bad")
-        d["outcome"] = obs.get("result", "error")
+        v = _expected_conv(case)[0]
+        if v == "ok" and obs.get("pre_existing") and not case["overwrite"]:
+            v = "exists"
+        d["outcome"] = "ok" if obs.get("result") == "ok" else f"refused[{v}]:" + _rlabel(obs.get("refusal"))
     return d
 
 
@@ -1568,12 +1861,16 @@ LEVEL_TEXT = ("Lean 4 theorems about an executable model of cryomap.write/read/e
               "readKw_default / convertKw_default (the keyword-less calls are the documented ones, by the signature defaults of the current source), "
               "convert_spec / em2mrc_spec / mrc2em_spec (voxels kept or negated, float64 narrowed, default names, refusal when the output exists "
               "and overwrite=False), checkConverted_accepts / _sound (the driver's converter checker is the theorem's `converted`), invert_invert, "
-              "sound (and complete) verified checkers run on the real files; tied to the source by regenerated, renaming-insensitive anchors "
+              "the container formats down to the bytes: decodeMrc_encodeMrc / decodeEm_encodeEm (decode . encode = id for both byte orders), "
+              "decodeMrc_encodeEm / decodeEm_encodeMrc (a file of the other container is refused), encodeMrc_voxel_bytes / encodeEm_voxel_bytes "
+              "(the bytes of voxel (i,j,k) start at header + width*(i+nx*(j+ny*k))), readBytes_writeBytes (round trip through the bytes), "
+              "readBytes_cross_format; sound (and complete) verified checkers run on the real files' DECODED BYTES; tied to the source by regenerated, renaming-insensitive anchors "
               "(signatures with defaults, normalised bodies of write/read/em2mrc/mrc2em/invert_contrast, the only axis-permuting expression and "
               "its guard, step order, float64->float32 narrowing, extension tables, reader pattern, converter suffixes / slices / factor / call "
-              "shapes) and by a bit-exact differential run of the real functions against the model, the bytes being parsed by the harness's own "
-              "MRC/EM parsers")
-LEVEL_NOTE = ("trusted: Lean kernel; translator anchors; harness MRC/EM parsers and writers (cross-checked against mrcfile/emfile by probes on every run); "
+              "shapes) and by a bit-exact differential run of the real functions against the model, the bytes of every file being decoded by the "
+              "Lean decoders and compared with the model's encoded bytes")
+LEVEL_NOTE = ("trusted: Lean kernel; translator anchors; hex transport and the driver's value<->bit-pattern conversion; harness MRC/EM writers for converter "
+              "inputs (checked by the Lean decoder per case); the Python parsers are no longer an oracle (cross-checked only); "
               "mrcfile/emfile store the array they are given (checked byte-wise); numpy float32 cast = Float.toFloat32 (bit-exact each run); the file "
               "system is modelled as a name->content map, byte-level preservation on refusal is validated by hash, not proved")
 TECHNIQUE = "Lean 4 proof (index arithmetic over Nat, Array extensionality) + regenerated anchors + verified checkers + bit-exact differential correspondence"
